@@ -55,7 +55,7 @@ static int raw_free(intptr_t, void* p, size_t bytes) {
     bool found = false;
     for (auto it = g_regions.begin(); it != g_regions.end(); ++it) if (it->first == p && it->second == bytes) { g_regions.erase(it); found = true; break; }
     if (!found) g_bad_free++;
-    free(p);
+    // the region is quarantined, not returned to the OS: a later use of it is then diagnosed by the ledger, not by a crash
     return 0;
 }
 static bool in_regions(void* p, size_t n) { for (auto& r : g_regions) if ((char*)p >= r.first && (char*)p + n <= r.first + r.second) return true; return false; }
@@ -63,8 +63,9 @@ static bool in_regions(void* p, size_t n) { for (auto& r : g_regions) if ((char*
 // seq: ops  1 size = malloc | 2 slot = free(slot-th allocation) | 3 size align = aligned_malloc | 4 slot newsize = realloc
 // output per alloc: kind(0 small,1 large,-1 null) objsize_or_unaligned offset msize alignedok
 static int do_seq() {
-    std::vector<i128> c; Out o;
+    std::vector<i128> c; Out o; Watchdog wd(15.0);
     while (read_case(c)) {
+        wd.arm(&o);
         g_regions.clear(); g_raw_allocs = g_raw_frees = 0; g_fail_at = -1; g_bad_free = 0;
         rml::MemPoolPolicy pol(raw_alloc, raw_free);
         rml::MemoryPool* pool = nullptr;
@@ -122,6 +123,7 @@ static int do_seq() {
         rml::pool_destroy(pool);
         o.word("OVERLAP"); o.put(overlap); o.word("OUTSIDE"); o.put(outside); o.word("CORRUPT"); o.put(corrupt);
         o.word("LEFT"); o.put_u64(g_regions.size()); o.word("BADFREE"); o.put(g_bad_free);
+        wd.disarm();
         o.flush();
     }
     return 0;
@@ -161,12 +163,13 @@ static int do_guards() {
     return 0;
 }
 
-// pool: "fixed failk (op arg)*"  ops: 1 size = pool_malloc | 2 slot = pool_free | 5 0 = pool_reset
+// pool: "fixed failk (op arg)*"  ops: 1 size = pool_malloc | 2 slot = pool_free | 5 0 = pool_reset | 6 size = a thread allocates and exits
 // the failk-th raw allocation fails once. output per malloc: first-try(0/1) retry(0/1/-1); trailer with the raw-memory ledger
 static char g_fixed_buf[8 * 1024 * 1024];
 static int do_pool() {
-    std::vector<i128> c; Out o;
+    std::vector<i128> c; Out o; Watchdog wd(6.0);
     while (read_case(c)) {
+        wd.arm(&o);
         g_regions.clear(); g_raw_allocs = g_raw_frees = 0; g_bad_free = 0;
         bool fixed = c[0] != 0; g_fail_at = (long)c[1];
         rml::MemoryPool* pool = nullptr; rml::MemoryPool* other = nullptr;
@@ -202,6 +205,11 @@ static int do_pool() {
             } else if (op == 5) {
                 check_live(); live.clear(); for (auto& sl : slots) sl = nullptr;
                 rml::pool_reset(pool);
+            } else if (op == 6) {
+                // another thread allocates small objects from the pool and exits while they are still allocated (orphaned slabs)
+                size_t sz = (size_t)c[i + 1];
+                std::thread t([&] { for (int k = 0; k < 5; ++k) { void* q = rml::pool_malloc(pool, sz); if (q) memset(q, 0x11, sz ? sz : 1); } });
+                t.join();
             }
         }
         check_live();
@@ -212,6 +220,7 @@ static int do_pool() {
         rml::pool_free(other, foreign); rml::pool_destroy(other);
         o.word("RAW"); o.put(raw_mine); o.word("LEFTMINE"); o.put_u64(left_after_mine); o.word("LEFT"); o.put_u64(g_regions.size());
         o.word("BADFREE"); o.put(g_bad_free); o.word("CORRUPT"); o.put(corrupt); o.word("OUTSIDE"); o.put(outside); o.word("OVERLAP"); o.put(overlap); o.word("IDENT"); o.put(ident_bad);
+        wd.disarm();
         o.flush();
     }
     return 0;
@@ -255,8 +264,9 @@ static int do_mt(int T, unsigned seed, int nops) {
 // xfree: "size align count second_size keepalive": thread A allocates `count` aligned blocks, thread B (a different thread) frees every
 // other one, A allocates `count` blocks of second_size; every block is checked against all live ones (shadow map), msize, alignment.
 static int do_xfree() {
-    std::vector<i128> c; Out o;
+    std::vector<i128> c; Out o; Watchdog wd(15.0);
     while (read_case(c)) {
+        wd.arm(&o);
         size_t size = (size_t)c[0], align = (size_t)c[1]; int count = (int)c[2]; size_t size2 = (size_t)c[3]; bool keepalive = c[4] != 0;
         std::map<char*, size_t> live; long overlap = 0, msz = 0, misal = 0, corrupt = 0;
         std::vector<char*> first;
@@ -280,6 +290,7 @@ static int do_xfree() {
         for (char* p : first) if (p) scalable_free(p);
         for (char* p : second) if (p) scalable_free(p);
         o.word("OVERLAP"); o.put(overlap); o.word("MSIZE"); o.put(msz); o.word("MISALIGNED"); o.put(misal); o.word("CORRUPT"); o.put(corrupt);
+        wd.disarm();
         o.flush();
     }
     return 0;
